@@ -11,6 +11,7 @@ import (
 	"bytes"
 	"crypto/sha256"
 	"fmt"
+	"io"
 	"net"
 	"net/url"
 	"os"
@@ -86,7 +87,14 @@ type ep struct {
 }
 
 func newEp(name string, c *simnet.Conn) *ep {
-	e := &ep{name: name, conn: c, iws: 65535, maxFrame: 16384, maxFrameEver: 16384, done: make(chan struct{}), pendingTable: -1,
+	e := newEpRW(name, c)
+	e.conn = c
+	return e
+}
+
+// newEpRW: an endpoint over any stream (a TLS connection, a segment-coalescing wrapper).
+func newEpRW(name string, c io.ReadWriter) *ep {
+	e := &ep{name: name, iws: 65535, maxFrame: 16384, maxFrameEver: 16384, done: make(chan struct{}), pendingTable: -1,
 		wuStream: map[uint32]int{}, gotStrm: map[uint32]int{}, sentStrm: map[uint32]int{}, backStrm: map[uint32]int{},
 		sentEl: map[uint32][]string{}, gotEl: map[uint32][]string{}}
 	e.w = http2.NewFramer(c, nil)
@@ -564,7 +572,7 @@ func (y *sys) oracle(ev string) bool {
 	}
 	// no stranding: a queued frame whose size fits both windows of the receiver must have been sent
 	for _, e := range []*ep{y.c, y.s} {
-		if y.focus != "C10" {
+		if y.focus != "C10" || y.cToS == nil { // (config-proxy family: the relays are internal to Config.Proxy; final delivery is checked instead)
 			break
 		}
 		r := y.relayTo(e)
@@ -1400,6 +1408,10 @@ func testH2(t *testing.T, prop string) {
 		fmt.Sscan(v, &q)
 		th = q
 	}
+	// the real entry point Config.Proxy (preface, first flight, TLS dial through the seam), both properties; registered
+	// first so that the thorough tier's time limit never cuts it
+	s.Add(explore.Scenario{Name: "config-proxy-quick", Remote: true, Tiers: []string{"quick"}, Run: runBubble(t, func(x *explore.X) { proxyEntryScenario(x, 2) })})
+	s.Add(explore.Scenario{Name: "config-proxy-thorough", Remote: true, Tiers: []string{"thorough"}, Run: runBubble(t, func(x *explore.X) { proxyEntryScenario(x, 3) })})
 	if prop == "C09" {
 		s.Add(explore.Scenario{Name: "flow-quick", Remote: true, Tiers: []string{"quick"}, Run: runBubble(t, func(x *explore.X) { flowScenario(x, q) })})
 		s.Add(explore.Scenario{Name: "flow-quick-deep", Remote: true, Tiers: []string{"quick"}, Run: runBubble(t, func(x *explore.X) { flowScenarioCfg(x, q+1, true) })})
